@@ -2230,3 +2230,49 @@ func c06r16(rc *core.RC) {
 		rc.Unknown("decoder/cursor-jumps", token.NoPos, "found %d jumps of a scan cursor by two or more bytes (confirmed: 30)", n)
 	}
 }
+
+// ---- C06.R17 the number of distinct field names is known for every struct decoder ----
+
+// tryOptimize numbers the fields of a struct decoder by their case-folded names (fieldIdx) and stores how many
+// numbers there are (fieldUniqueNameNum). Whatever is sized by the count and indexed by the number relies on the
+// count being set for every decoder, also for those that cannot use the key bitmaps: tryOptimize leaves early for
+// them (more than 16 names, a long key, a cased letter outside ASCII). Obligation: the assignment to
+// fieldUniqueNameNum is a statement of the function body that stands in front of every return, and its value is the
+// length of the map the numbering loop fills.
+func c06r17(rc *core.RC) {
+	p := rc.P
+	fd := p.Func("decoder", "structDecoder.tryOptimize")
+	if fd == nil || fd.Body == nil {
+		rc.Unknown("decoder.structDecoder.tryOptimize", token.NoPos, "function not found")
+		return
+	}
+	info := p.Info(fd)
+	rc.Touch("decoder.(*structDecoder).tryOptimize")
+	var assign *ast.AssignStmt
+	for _, st := range fd.Body.List {
+		if as, ok := st.(*ast.AssignStmt); ok && len(as.Lhs) == 1 {
+			if f := core.FieldOf(info, as.Lhs[0]); f != nil && f.Name() == "fieldUniqueNameNum" {
+				assign = as
+			}
+		}
+	}
+	key := "decoder.(*structDecoder).tryOptimize/name-count-set-before-any-return"
+	if assign == nil {
+		rc.Bad(key, fd.Pos(), "fieldUniqueNameNum is not assigned by a statement of the function body (it has to be set for every struct decoder, also for those that leave tryOptimize early)")
+		return
+	}
+	firstRet := token.NoPos
+	ast.Inspect(fd.Body, func(m ast.Node) bool {
+		if r, ok := m.(*ast.ReturnStmt); ok && (!firstRet.IsValid() || r.Pos() < firstRet) {
+			firstRet = r.Pos()
+		}
+		return true
+	})
+	fromMap := false
+	if c, ok := core.Unparen(assign.Rhs[0]).(*ast.CallExpr); ok && core.IsBuiltin(info, c, "len") && len(c.Args) == 1 {
+		if _, isMap := info.TypeOf(c.Args[0]).Underlying().(*types.Map); isMap {
+			fromMap = true
+		}
+	}
+	rc.Check((!firstRet.IsValid() || assign.Pos() < firstRet) && fromMap, key, assign.Pos(), "fieldUniqueNameNum is the length of the map that numbers the fields and is set in front of every return of tryOptimize: set only behind the early returns (or from another list) it stays 0 for the decoders that cannot use the key bitmaps, and what is sized by it and indexed by fieldIdx is too short (index out of range under DecodeFieldPriorityFirstWin)")
+}
